@@ -42,7 +42,7 @@ def run():
   t0 = time.time()
   out = fw.Outcome('C05', 'other', t0)
   src, names = source()
-  res = kernels.run_kernels(out, 'type inference on skeletons', src, names, 900, replay_k,
+  res = kernels.run_kernels(out, 'type inference on skeletons', src, names, 2400, replay_k,
                             extra_args=['--per_path_timeout', '60'])
   confirmed = [n for n in names if res[n].get('verdict') == 'confirmed' and res[n].get('twin') == 'reachable']
   out.coverage.update({
